@@ -332,3 +332,26 @@ def parse_Z_list(out: str, marker: str = "=") -> list[int]:
     body = m.group(1).replace("\n", " ")
     body = body.replace("(", "").replace(")", "").replace("%Z", "")
     return [int(t) for t in body.split(";") if t.strip()]
+
+
+def coqchk(prop_file: str, timeout: int = 1500) -> dict:
+    """Independent re-check of the compiled property file and everything it
+    depends on (coqchk -o); returns the axioms it lists, split as above, and
+    the three 'assumed' lines."""
+    mod = "PV." + prop_file[:-2].replace("/", ".")
+    try:
+        rc, out = _run(f"timeout {timeout} coqchk -silent -o -Q {COQ} PV {mod}", cwd=COQ, timeout=timeout + 30)
+    except subprocess.TimeoutExpired:
+        return dict(ok=False, error="timeout")
+    if rc != 0 or "CONTEXT SUMMARY" not in out:
+        return dict(ok=False, error=out[-600:])
+    body = out.split("* Axioms:", 1)[1]
+    ax_part, rest = body.split("* Constants/Inductives relying on type-in-type:", 1)
+    axioms = [ln.strip() for ln in ax_part.splitlines() if ln.strip() and ln.strip() != "<none>"]
+    prim = [a for a in axioms if ".PrimFloat." in a or ".PrimInt63." in a or ".Uint63." in a or ".Sint63." in a or ".PArray." in a]
+    other = [a for a in axioms if a not in prim]
+    flags = {}
+    for key in ("type-in-type", "unsafe (co)fixpoints", "positivity is assumed"):
+        m = re.search(re.escape(key) + r":\s*(.*)", out)
+        flags[key] = m.group(1).strip() if m else "?"
+    return dict(ok=True, primitive_axioms=len(prim), other_axioms=sorted(other), assumed=flags)
